@@ -187,6 +187,52 @@ def expected_value(setting, flag_mode, cfg_set, auto, cfg_val=None):
     return default
 
 
+_ABBREV: dict[str, list[str]] = {}
+
+
+def _spellings(opt: str) -> list[str]:
+    """the spellings of a long option the real command line accepts for it: every prefix that the main parser takes for the
+    same option (argparse's abbreviations), found by asking the parser itself"""
+    if opt in _ABBREV:
+        return _ABBREV[opt]
+    import contextlib, io
+    from flowmark import cli
+    out = [opt]
+
+    def parse(a):
+        with contextlib.redirect_stderr(io.StringIO()), contextlib.redirect_stdout(io.StringIO()):
+            try:
+                return cli._parse_args(a)[0]
+            except SystemExit:
+                return None
+    valued = opt in ("--width", "--list-spacing", "--files-max-size", "--extend-include", "--exclude", "--extend-exclude")
+    val = {"--width": "33", "--list-spacing": "loose", "--files-max-size": "1000"}.get(opt, "zz")
+    full = parse([opt] + ([val] if valued else []) + ["x.md"])
+    for k in range(4, len(opt)):
+        cand = opt[:k]
+        if cand.endswith("-"):
+            continue
+        got = parse([cand] + ([val] if valued else []) + ["x.md"])
+        if full is not None and got == full:
+            out.append(cand)
+    _ABBREV[opt] = out
+    return out
+
+
+def respell(ctx: Ctx, args: list[str]) -> list[str]:
+    """another accepted spelling of the same flag: an abbreviation, or --opt=value"""
+    r = ctx.rng.random()
+    if r < 0.6 or not args or not args[0].startswith("--"):
+        return list(args)
+    opt = ctx.rng.choice(_spellings(args[0]))
+    if len(args) == 2 and ctx.rng.random() < 0.5:
+        ctx.bump("flag-spelling:=value")
+        return [f"{opt}={args[1]}"]
+    if opt != args[0]:
+        ctx.bump("flag-spelling:abbreviated")
+    return [opt] + list(args[1:])
+
+
 def oracle(ctx: Ctx) -> None:
     rng = ctx.rng
     kinds = [".flowmark.toml", "flowmark.toml", "pyproject.toml"]
@@ -217,9 +263,9 @@ def oracle(ctx: Ctx) -> None:
                                 write_config(d, kind, style, case, {})
                             args = []
                             if flag_mode == "given":
-                                args += cli_args
+                                args += respell(ctx, cli_args)
                             elif flag_mode == "given-default":
-                                args += DEFAULT_VALUED[setting]
+                                args += respell(ctx, DEFAULT_VALUED[setting])
                             if auto:
                                 args += ["--auto"]
                             args += ["."]
